@@ -170,6 +170,13 @@ func checkC15(rep *Report, rng *Rng, tier string) {
 		g := GenCfg{FileBacked: r.Chance(3, 4), NColls: 1 + r.Intn(3), NOps: 30 + r.Intn(70), Structural: true, Visits: true, PrioMode: r.Intn(4), Invalid: r.Chance(1, 3), CollMgmt: r.Chance(1, 3)}
 		ops := GenHistory(r, g)
 		ops = weaveSnapshots(r, ops, r.Intn(3))
+		if r.Chance(1, 3) && len(ops) > 6 {
+			// CopyTo takes and must give back references on the source's items (also with several collections)
+			for k := 1 + r.Intn(2); k > 0; k-- {
+				at := 3 + r.Intn(len(ops)-3)
+				ops = append(ops[:at:at], append([]Op{{K: "copyto", N: []int{-1, 0, 1, 2, 5}[r.Intn(5)]}}, ops[at:]...)...)
+			}
+		}
 		for j := range ops {
 			// Get() cannot return the reference it takes (known finding, probed separately)
 			if ops[j].K == "get" {
